@@ -1,4 +1,6 @@
 SPECIFICATION Spec
-CONSTANT MaxMinor = 15
+CONSTANTS
+  MaxMinor = 15
+  FiveTuple = TRUE
 INVARIANT Emit
 INVARIANT EmitTargets
